@@ -265,17 +265,6 @@ class MonteCarlo(SingleDriver, Generic[MoveType, CriteriaType]):
 
         return dictionary
 
-    def todict(self) -> dict[str, Any]:
-        """
-        Convert the object to a dictionary (name used by ASE's JSON encoder).
-
-        Returns
-        -------
-        dict[str, Any]
-            The dictionary returned by the `to_dict` method of the object's own class.
-        """
-        return self.to_dict()
-
     @classmethod
     def from_dict(cls, data: dict[str, Any], **kwargs_override: Any) -> Self:
         """
